@@ -373,6 +373,27 @@ Fairness ==
 FairSpec == Spec /\ Fairness
 
 -----------------------------------------------------------------------------
+(* Schedule generation (cfgs with RecordHist = TRUE and ACTION_CONSTRAINT           *)
+(* UrgentInternal).  The harness replays a schedule through gates on storage and     *)
+(* exporter calls and by launching manager operations; it cannot delay the internal  *)
+(* steps of the code.  Under this constraint such steps are taken as soon as they    *)
+(* are enabled, so that every schedule TLC reports can be forced on the real code.   *)
+InternalNames == {"Advance", "Handoff", "TakeStop", "Close", "StopEnd", "ShutdownRelease", "ShutdownEnd"}
+
+InternalEnabled ==
+    \/ pipe.st = "acked"
+    \/ (pipe.st = "sending" /\ ep[pipe.e].sub = "idle")
+    \/ (pipe.stopReq /\ pipe.st \in {"idle", "fetched", "acked"} /\ mgr.pc = "wait"
+          /\ (JoinSubscriber => ep[pipe.e].sub = "idle"))
+    \/ (mu = "free" /\ \E e \in DOMAIN ep : ep[e].closing)
+    \/ (mgr.op = "stop" /\ mgr.pc = "stopped")
+    \/ (mgr.op = "shutdown" /\ mgr.pc = "stopped")
+    \/ (mgr.op = "shutdown" /\ mgr.pc = "drain" /\ \A e \in DOMAIN ep : ~ep[e].closing)
+
+UrgentInternal ==
+    (RecordHist /\ InternalEnabled /\ hist' # hist) => hist'[Len(hist')].a \in InternalNames
+
+-----------------------------------------------------------------------------
 (* Properties                                                               *)
 
 TypeOK ==
